@@ -255,6 +255,7 @@ def hostile_names():
 
 def strategy(tier):
     from hypothesis import strategies as st
+    from vf.fixtures import sized_lists
     hostile = hostile_names()
     methods = ["add_tag", "get_tag_name", "itemize", "__len__", "__class__", "__dict__", "_tag_names", "_tag_counter",
                "TagLibrary", "_module_library", "__getattr__", "DuplicateTagError"]
@@ -266,4 +267,4 @@ def strategy(tier):
     unk = st.fixed_dictionaries({"op": st.just("unknown"), "lib": st.integers(0, 2), "n": st.integers(0, 4)})
     gk = st.integers(0, 39).map(lambda v: "interpreter" if v == 0 else ("fresh-module" if v <= 10 else "none"))
     return st.fixed_dictionaries({"libs": st.integers(1, 3), "global": gk,
-                                  "ops": st.lists(st.one_of(add, add, add, add, look, unk), min_size=1, max_size=25)})
+                                  "ops": st.one_of(st.lists(st.one_of(add, add, add, add, look, unk), min_size=1, max_size=25), sized_lists(st.one_of(add, add, add, add, look, unk), 6, 25))})
